@@ -827,6 +827,11 @@ struct Exec
 		else { os.end_op () ; r.skipped = true ; return ; }
 		r.ret = rc ; r.err = sf_error (t.sf) ;
 		after_call (t, r) ;
+		if (id == "truncate" && rc != 0 && t.sf)
+		{	// SFC_FILE_TRUNCATE seeks first and truncates second: when the second step fails (always over virtual I/O, which has no
+			// truncate callback) the positions have moved already. No listed property fixes that state, so follow the handle.
+			Digest d = digest (t) ; sync_pos (t, d) ; sm [t.store].model_on = false ;
+		}
 		if (!t.stop && !t.faulted && opts.strict && id == "truncate" && rc == 0)
 		{	Digest d = digest (t) ;
 			if (d.ok && (d.v [DG_FRAMES] != t.frames || (t.mode == SFM_RDWR && d.v [DG_READ_CURRENT] != t.rd) || d.v [DG_WRITE_CURRENT] != t.wr))
